@@ -98,6 +98,7 @@ def build(repo, thorough):
         bad = [(m, err) for m, err, _ in res if err]
         if bad:
             raise HarnessError('extension build failed: %s' % bad)
+        build.per_module = dict((m, round(secs, 1)) for m, _, secs in res)
         return scratch, mods, time.time() - t0
     except BaseException:
         shutil.rmtree(scratch, ignore_errors=True)
@@ -556,7 +557,7 @@ def compare(ctx, part, pure_rows, comp_rows, thorough):
             if key.endswith('|all') and key.startswith('c01|') and n_samples['c01'] < 2:
                 n_samples['c01'] += 1
                 part.sample({'case': key, 'type': type_label(key, thorough)[1], 'decoders': ['pure'] + variants, 'agreed_dump_head': json.dumps(p)[:200]}, limit=8)
-            elif group == 'c04' and n_samples['c04'] < 2 and p[0] == 'MSG' and len(rows_dump[1]) > 0:
+            elif group == 'c04' and n_samples['c04'] < 1 and p[0] == 'MSG' and len(rows_dump[1]) > 0:
                 n_samples['c04'] += 1
                 part.sample({'case': key, 'decoders': ['pure'] + variants, 'agreed_dump_head': json.dumps(p)[:200]}, limit=8)
             continue
@@ -588,6 +589,7 @@ def compare(ctx, part, pure_rows, comp_rows, thorough):
         raise HarnessError('pure worker produced no result for %d cases, e.g. %s' % (len(missing), missing[:3]))
     # compiled-only sections
     nk = 0
+    c39_sampled = False
     for key, d in comp_rows:
         if key == 'murmur':
             if nk == 0 and d.get('last'):
@@ -605,7 +607,10 @@ def compare(ctx, part, pure_rows, comp_rows, thorough):
                 part.count('c39_' + k2, v2)
             part.count('evaluations', d['counters'].get('evaluations', 0))
             part.outcome(('c39', 'violations' if d['violations'] else 'ok'))
-            part.sample({'case': 'c39 scenarios through ListParser and LazyParser', 'counters': d['counters'], 'violations': len(d['violations'])}, limit=8)
+            if not c39_sampled:
+                c39_sampled = True
+                part.sample({'case': 'c39 scenarios through ListParser and LazyParser (first slice)', 'counters': d['counters'],
+                             'violations': len(d['violations'])}, limit=8)
             for fp, what, data in d['violations']:
                 part.violation(fp, 'compiled build, C39 scenario: ' + what, {'c39': data, 'thorough': thorough})
     if nk == 0:
@@ -624,7 +629,7 @@ def run_differential(ctx, part, thorough, keep=None):
         # the pure worker does not need the build: it runs while the extensions compile
         pp = spawn('pure', repo, tier, os.path.join(outdir, 'pure.jsonl'), max(2, ctx.nproc // 4))      # leaves most cores to the compilers
         scratch, mods, secs = build(repo, thorough)
-        ctx.cov['build'] = {'modules': mods, 'seconds': round(secs, 1)}
+        ctx.cov['build'] = {'modules': mods, 'seconds': round(secs, 1), 'seconds_per_module': getattr(build, 'per_module', None)}
         pc = spawn('compiled', scratch, tier, os.path.join(outdir, 'compiled.jsonl'), ctx.nproc if pp.poll() is not None else half)
         out_p, _ = pp.communicate()
         out_c, _ = pc.communicate()
@@ -686,8 +691,12 @@ def run(ctx):
 
 def replay(ctx, data):
     """Re-run the differential for the recorded tier and report whether the recorded case still differs."""
-    part = Part()
     thorough = bool(data.get('thorough'))
+
+    class EveryCase(Part):
+        def violation(self, fingerprint, what, d=None):            # no one-per-fingerprint folding: the recorded case must be found itself
+            self.violations.append((fingerprint, what, core.jsonable(d)))
+    part = EveryCase()
 
     class C(object):
         cov = {}
@@ -695,8 +704,12 @@ def replay(ctx, data):
     run_differential(C, part, thorough)
     hit = False
     for fp, what, d in part.violations:
+        c39_key = lambda x: [(x.get('c39') or {}).get(k) for k in ('handler', 'index', 'layout', 'pv', 'tag')]
         same = (d.get('key') is not None and d.get('key') == data.get('key')) or \
-            (d.get('murmur_key') is not None and d.get('murmur_key') == data.get('murmur_key')) or ('c39' in d and 'c39' in data)
-        print(fp, '::', what[:500])
+            (d.get('murmur_key') is not None and d.get('murmur_key') == data.get('murmur_key')) or \
+            ('c39' in d and 'c39' in data and c39_key(d) == c39_key(data))
+        if same:
+            print(fp, '::', what[:500])
         hit = hit or same
-    return hit or bool(part.violations)
+    print('%d differing cases in all, the recorded one %s' % (len(part.violations), 'still differs' if hit else 'does not differ any more'))
+    return hit
